@@ -11,6 +11,9 @@ import (
 	"github.com/oasisprotocol/oasis-core/go/common/crypto/signature"
 	"github.com/oasisprotocol/oasis-core/go/common/entity"
 	"github.com/oasisprotocol/oasis-core/go/common/node"
+	keymanager "github.com/oasisprotocol/oasis-core/go/keymanager/api"
+	"github.com/oasisprotocol/oasis-core/go/keymanager/churp"
+	"github.com/oasisprotocol/oasis-core/go/keymanager/secrets"
 	roothash "github.com/oasisprotocol/oasis-core/go/roothash/api"
 	"github.com/oasisprotocol/oasis-core/go/roothash/api/commitment"
 	staking "github.com/oasisprotocol/oasis-core/go/staking/api"
@@ -36,11 +39,15 @@ type innerCarrier struct {
 	Name  string
 	Opts  chain.GenesisOptions
 	Warm  bool // warm up to the first executor committee
+	KM    bool // key manager world: empty blocks until the key manager status exists, then the Pre letters
+	Pre   []kmSpec
 	Build func(b *bundle) (txT, []innerSlot, string)
 }
 
 func (w *world) innerCarriers() []innerCarrier {
 	rtOpts := chain.GenesisOptions{EpochInterval: 3, NodeExpiration: 14, Runtime: true, RtSlashEquivocation: 50}
+	kmOpts := chain.GenesisOptions{KeyManager: true, EpochInterval: 2, NodeExpiration: 30, Escrow: []uint64{3000, 3000, 3000}}
+	churpOpts := chain.GenesisOptions{KeyManager: true, EpochInterval: 3, NodeExpiration: 30, Escrow: []uint64{3000, 3000, 3000}, Feature261: true}
 	mkCommit := func(k *chain.Keys, round uint64, tag string, failure bool) commitment.ExecutorCommitment {
 		n0 := k.Nodes[0].NodeSigner
 		ec := commitment.ExecutorCommitment{
@@ -135,6 +142,68 @@ func (w *world) innerCarriers() []innerCarrier {
 				{Name: "prop_b", Sig: &x.ProposalB.Signature, Msg: cbor.Marshal(x.ProposalB.Header), Key: n0},
 			}, ""
 		}},
+		{Name: "keymanager.PublishMasterSecret", Opts: kmOpts, KM: true, Build: func(b *bundle) (txT, []innerSlot, string) {
+			ts := b.kmTxs(&kmSpec{Kind: "master", Who: []int{0}})
+			if len(ts) != 1 {
+				return txT{}, nil, "harness: no master secret transaction"
+			}
+			body := ts[0].Body.(secrets.SignedEncryptedMasterSecret)
+			ts[0].Body = &body
+			return ts[0], []innerSlot{{Name: "secret", Sig: &body.Signature, Msg: cbor.Marshal(body.Secret), Key: keymanager.TestSigners[0]}}, ""
+		}},
+		{Name: "keymanager.PublishEphemeralSecret", Opts: kmOpts, KM: true, Build: func(b *bundle) (txT, []innerSlot, string) {
+			ts := b.kmTxs(&kmSpec{Kind: "ephemeral", Who: []int{1}})
+			if len(ts) != 1 {
+				return txT{}, nil, "harness: no ephemeral secret transaction"
+			}
+			body := ts[0].Body.(secrets.SignedEncryptedEphemeralSecret)
+			ts[0].Body = &body
+			return ts[0], []innerSlot{{Name: "secret", Sig: &body.Signature, Msg: cbor.Marshal(body.Secret), Key: keymanager.TestSigners[0]}}, ""
+		}},
+		{Name: "keymanager.UpdatePolicy", Opts: kmOpts, KM: true, Build: func(b *bundle) (txT, []innerSlot, string) {
+			ts := b.kmTxs(&kmSpec{Kind: "policy"})
+			if len(ts) != 1 {
+				return txT{}, nil, "harness: no policy transaction"
+			}
+			body := ts[0].Body.(secrets.SignedPolicySGX)
+			ts[0].Body = &body
+			var slots []innerSlot
+			for i := range body.Signatures {
+				slots = append(slots, innerSlot{Name: fmt.Sprintf("policy_sig_%d", i), Sig: &body.Signatures[i].Signature, Msg: cbor.Marshal(body.Policy), Key: keymanager.TestSigners[1+i]})
+			}
+			return ts[0], slots, ""
+		}},
+		{Name: "churp.Create", Opts: churpOpts, KM: true, Build: func(b *bundle) (txT, []innerSlot, string) {
+			ts := b.kmTxs(&kmSpec{Kind: "churp-create"})
+			if len(ts) != 1 {
+				return txT{}, nil, "harness: no churp create transaction"
+			}
+			body := ts[0].Body.(churp.CreateRequest)
+			ts[0].Body = &body
+			var slots []innerSlot
+			for i := range body.Policy.Signatures {
+				slots = append(slots, innerSlot{Name: fmt.Sprintf("policy_sig_%d", i), Sig: &body.Policy.Signatures[i].Signature, Msg: cbor.Marshal(body.Policy.Policy), Key: keymanager.TestSigners[1+i]})
+			}
+			return ts[0], slots, ""
+		}},
+		{Name: "churp.Apply", Opts: churpOpts, KM: true, Pre: []kmSpec{{Kind: "churp-create"}}, Build: func(b *bundle) (txT, []innerSlot, string) {
+			ts := b.kmTxs(&kmSpec{Kind: "churp-apply", Who: []int{0}})
+			if len(ts) != 1 {
+				return txT{}, nil, "harness: no churp apply transaction"
+			}
+			body := ts[0].Body.(churp.SignedApplicationRequest)
+			ts[0].Body = &body
+			return ts[0], []innerSlot{{Name: "application", Sig: &body.Signature, Msg: cbor.Marshal(body.Application), Key: keymanager.TestSigners[0]}}, ""
+		}},
+		{Name: "churp.Confirm", Opts: churpOpts, KM: true, Pre: []kmSpec{{Kind: "churp-create"}, {Kind: "churp-apply", Who: []int{0, 1, 2}}}, Build: func(b *bundle) (txT, []innerSlot, string) {
+			ts := b.kmTxs(&kmSpec{Kind: "churp-confirm", Who: []int{0}})
+			if len(ts) != 1 {
+				return txT{}, nil, "harness: no churp confirm transaction"
+			}
+			body := ts[0].Body.(churp.SignedConfirmationRequest)
+			ts[0].Body = &body
+			return ts[0], []innerSlot{{Name: "confirmation", Sig: &body.Signature, Msg: cbor.Marshal(body.Confirmation), Key: keymanager.TestSigners[0]}}, ""
+		}},
 	}
 }
 
@@ -206,6 +275,24 @@ func innerRun(w *world, c *innerCarrier, forge func(t *txT, slots []innerSlot) s
 		for i := int64(0); i < 2*w.opts.EpochInterval; i++ {
 			if _, what := step(&letter{Name: "empty"}); what != "" {
 				return nil, "harness: warm-up: " + what
+			}
+		}
+	}
+	if c.KM {
+		for i := 0; i < 8 && !kmRead(b.ref()).status.IsInitialized; i++ {
+			if _, what := step(&letter{Name: "empty"}); what != "" {
+				return nil, "harness: warm-up: " + what
+			}
+		}
+		for i := range c.Pre {
+			out, what := step(&letter{Name: c.Pre[i].String(), KM: &c.Pre[i]})
+			if what != "" {
+				return nil, "harness: prefix: " + what
+			}
+			for _, tr := range out.results[0].TxResults {
+				if tr.Code != 0 {
+					return nil, fmt.Sprintf("harness: prefix transaction of %s failed with code %d", c.Pre[i].String(), tr.Code)
+				}
 			}
 		}
 	}
